@@ -1,5 +1,6 @@
 """C14 - signal-to-data models obey their defining algebra."""
 import itertools
+import os
 
 import numpy as np
 from hypothesis import strategies as st
@@ -10,6 +11,28 @@ from vf import gens
 from vf.runner import Outcome, Prop, Sub, Violation
 
 EPS32 = float(np.finfo(np.float32).eps)
+
+
+_NUMBA_PID = None
+
+
+def _numba_ready():
+    """The runner forks its workers from a parent in which `import darsia` has already started
+    numba's OpenMP pool; GNU OpenMP terminates a forked child on its first parallel region.  The
+    kernels' numba functions are created at call time, so it suffices to re-initialise numba's
+    threading layer as the fork-safe 'workqueue' once per worker (NUMBA_NUM_THREADS=1: results do
+    not depend on the layer)."""
+    global _NUMBA_PID
+    if _NUMBA_PID == os.getpid():
+        return
+    import numba
+    from numba.np.ufunc import parallel
+
+    if not parallel._is_initialized or numba.threading_layer() != "workqueue":
+        numba.config.THREADING_LAYER = "workqueue"
+        parallel._is_initialized = False
+        parallel._launch_threads()
+    _NUMBA_PID = os.getpid()
 
 
 def dy(lo, hi, den=8):
@@ -314,11 +337,12 @@ def gen_combined_cases(draw):
         sig["dtype"] = "float32"
     else:
         sig = draw(signal_specs())
-    return {"sig": sig, "parts": parts, "kernel": draw(kernel_specs(max_n=3)) if with_kernel else None,
+    return {"sig": sig, "parts": parts, "kernel": draw(kernel_specs(max_n=3, dims=(3,))) if with_kernel else None,
             "mask": draw(st.booleans()), "mseed": draw(st.integers(0, 2**16))}
 
 
 def check_combined(case):
+    _numba_ready()
     x = make_signal(case["sig"])
     x0 = x.copy()
     parts = case["parts"]
@@ -528,6 +552,7 @@ def _check_regions(got, x, labels, ids, s, o, t, what):
 
 
 def check_hetero(case):
+    _numba_ready()
     labels = make_labels(case["labels"])
     ids = np.unique(labels)
     n = len(ids)
@@ -746,9 +771,9 @@ def check_threshold(case):
 
 
 @st.composite
-def kernel_specs(draw, max_n=4):
+def kernel_specs(draw, max_n=4, dims=(3, 3, 3, 2, 1)):
     ktype = draw(st.sampled_from(["gaussian", "gaussian", "linear"]))
-    d = draw(st.sampled_from([3, 3, 3, 2, 1]))
+    d = draw(st.sampled_from(list(dims)))
     if ktype == "gaussian":
         par = draw(st.sampled_from([0.5, 1.0, 2.0, 4.0, 8.0, 9.73]))
         n = draw(st.integers(1, max_n))
@@ -813,16 +838,22 @@ def build_kernel_model(spec):
                                        values=val.copy()), sup, val)
 
 
+_CAL = None  # calibration hook: list collecting err / tol ratios
+
+
 def kernel_tol(ktype, par, weights, pts, sup, vmax):
-    """Bound on the float32 evaluation error of sum_n w_n k(x, s_n): every term carries a few ulps
-    (float32 supports/signal, fast-math exp, accumulation); the float32-rounded kernel matrix adds
-    the same order.  64 eps32 (sum |w_n| kmax (n + d + 2)) + 64 eps32 |v|max."""
+    """Bound on the float32 evaluation error of sum_n w_n k(x, s_n) (backward-error form).
+    Gaussian: the exponent gamma |x-s|^2 carries (d+2) roundings, |d exp(-t)| <= 0.37 t-relative,
+    fast-math exp a few ulps -> per-term error <= eps32 |w_n| (d + 6); linear: (d+1) roundings of
+    sum |x_j s_j| + a.  Accumulating n terms and the float32 cast of the weights add n + 1 ulps.
+    Safety factor 4 (observed: <= 0.06 of this bound over 10 000 cases); plus 4 eps32 |v|max."""
     n, d = sup.shape
     if ktype == "gaussian":
-        kmax = 1.0 + float(par) * 3.0  # |d k / d arg| * arg-size for the exponent's rounding
+        unit = float(d + 6 + n)
     else:
-        kmax = float(np.abs(pts).max() * np.abs(sup).max() * d + par) + 1e-3
-    return 64 * EPS32 * (float(np.sum(np.abs(weights))) * kmax * (n + d + 2) + vmax)
+        mag = float(np.max(np.sum(np.abs(np.reshape(pts, (-1, d)))[:, None, :] * np.abs(sup)[None, :, :], axis=-1)))
+        unit = (mag + abs(par)) * (d + n + 2)
+    return 4 * EPS32 * float(np.sum(np.abs(weights))) * unit + 4 * EPS32 * vmax
 
 
 @st.composite
@@ -847,6 +878,7 @@ def _eval_at_supports(m, sup, form):
 
 
 def check_kernel_reproduces(case):
+    _numba_ready()
     spec = case["k"]
     res = make_supports(spec)
     t = {"ktype": spec["ktype"], "n": spec["n"], "d": spec["d"], "form": case["form"], "update": case["update"]}
@@ -869,9 +901,9 @@ def check_kernel_reproduces(case):
         w = np.linalg.solve(xm, val_chk)
         got = _eval_at_supports(m, sup_chk, case["form"])
         tol = kernel_tol(ktype, par, w, sup_chk, sup_chk, float(np.abs(val_chk).max()))
-        # conditioning of the float32-rounded matrix: relative perturbation eps32 of X
-        tol += 8 * EPS32 * float(np.linalg.cond(xm)) * float(np.abs(val_chk).max())
         err = float(np.abs(got - val_chk).max())
+        if _CAL is not None:
+            _CAL.append(("rep", ktype, err / tol if tol > 0 else 0.0))
         if got.shape != val_chk.shape or not err <= tol:
             raise Violation(f"kernel-not-reproduced:{stage}", f"{ktype}({par}) n={len(sup_chk)} d={spec['d']} "
                             f"form={case['form']}: max |model(support_i) - value_i| = {err:.3e} "
@@ -918,7 +950,8 @@ def check_kernel_reproduces(case):
             e.vf_tags = t
             raise
         if np.linalg.cond(xm) <= 1e3:
-            verify(msup, vv, xm, f"after-{up}")
+            verify(msup, vv, xm, "after-kernel-update" if up in ("kernel", "kernel+values", "all", "none")
+                   else f"after-{up}")
             evals += 1
     return Outcome(spec["n"] >= 2, [spec, case["form"], case["update"], case["par2"]],
                    (spec["ktype"], f"n{spec['n']}", f"d{spec['d']}", case["form"], f"update-{case['update']}"),
@@ -938,6 +971,7 @@ def gen_fast_cases(draw):
 
 
 def check_kernel_fast(case):
+    _numba_ready()
     rng = np.random.default_rng(case["pseed"])
     lo = 0 if case["range"] == "unit" else -100
     sig = (rng.integers(lo, 101, size=case["shape"]) / 100.0).astype(np.float32)
@@ -957,6 +991,8 @@ def check_kernel_fast(case):
     tol = kernel_tol(case["ktype"], case["par"], w, sig, sup, 0.0)
     e1 = float(np.abs(fast.astype(np.float64) - plain.astype(np.float64)).max())
     e2 = float(np.abs(fast.astype(np.float64) - ref).max())
+    if _CAL is not None:
+        _CAL.append(("fast", case["ktype"], max(e1, e2) / tol if tol > 0 else 0.0))
     if not e1 <= tol:
         raise Violation(f"kernel-fast-vs-plain:{case['ktype']}", f"numba linear_combination differs from the "
                         f"plain kernel sum by {e1:.3e} (tol {tol:.2e}) for a {len(case['shape'])}-d signal", t)
@@ -1038,8 +1074,9 @@ PROP = Prop(
     rule=_RULE,
     assumptions=[
         "dyadic payloads and parameters: clip / affine / threshold / routing laws are compared exactly",
-        "kernel laws: tolerance 64 eps32 (sum|w_n| kmax (n+d+2) + |v|max) + 8 eps32 cond(X) |v|max "
-        "(float32 evaluation, fast-math exp, float32-rounded kernel matrix)",
+        "kernel laws: backward-error tolerance 4 eps32 sum|w_n| U + 4 eps32 |v|max with U = d+6+n "
+        "(Gaussian) or (max sum_j|x_j s_j| + a)(d+n+2) (linear): float32 evaluation, fast-math exp, "
+        "float32-rounded kernel matrix",
         "updated values of a KernelInterpolation refer to model.supports (the model sorts its supports)",
         "multi-entry dofs lists of CombinedModel are not asserted (undocumented layout); parts without "
         "num_parameters (KernelInterpolation) are not routed through CombinedModel",
